@@ -240,10 +240,17 @@ def scen_simple(rng):
         exp = {"nothing_where": "QueryException", "fieldless_where": "QueryException", "ok_where": None, "ok_update_where": None,
                "no_handler": "QueryException", "fieldless_update": "QueryException"}[v]
     elif g == "pg_returning":
-        v = rng.choice(["agg", "agg_arith", "agg_plus_field", "foreign", "mixed_foreign", "mixed_foreign_fn", "own", "star", "str", "select_query", "joined", "plain_fn"])
+        v = rng.choice(["agg", "agg_arith", "agg_neg", "agg_cmp", "agg_between", "agg_case", "neg_plain", "cmp_plain", "agg_plus_field", "foreign", "mixed_foreign", "mixed_foreign_fn", "own", "star", "str", "select_query", "joined", "plain_fn"])
         L = ["t = T('t')", "u = T('u')"]
         L += {"agg": ["q0 = PostgreSQLQuery.into(t).insert(1)", "r = q0.returning(fn.Sum(t.a))"],
               "agg_arith": ["q0 = PostgreSQLQuery.into(t).insert(1)", "r = q0.returning(fn.Max(t.a) + 1)"],
+              # an aggregate below a term of another class is an aggregate term all the same
+              "agg_neg": ["q0 = PostgreSQLQuery.into(t).insert(1)", "r = q0.returning(-fn.Sum(t.a))"],
+              "agg_cmp": ["q0 = PostgreSQLQuery.into(t).insert(1)", "r = q0.returning(fn.Sum(t.a) > 1)"],
+              "agg_between": ["q0 = PostgreSQLQuery.update(t).set('a', 1)", "r = q0.returning(fn.Max(t.a).between(1, 2))"],
+              "agg_case": ["q0 = PostgreSQLQuery.into(t).insert(1)", "r = q0.returning(Case().when(fn.Sum(t.a) > 1, fn.Max(t.b)).else_(fn.Min(t.b)))"],
+              "neg_plain": ["q0 = PostgreSQLQuery.into(t).insert(1)", "r = q0.returning(-t.a, t.b > 1)"],
+              "cmp_plain": ["q0 = PostgreSQLQuery.update(t).set('a', 1)", "r = q0.returning(t.a.between(1, 2), Case().when(t.a > 1, t.b).else_(0))"],
               "agg_plus_field": ["q0 = PostgreSQLQuery.into(t).insert(1)", "r = q0.returning(fn.Sum(t.a) + t.b)"],
               "foreign": ["q0 = PostgreSQLQuery.into(t).insert(1)", "r = q0.returning(u.a)"],
               "mixed_foreign": ["q0 = PostgreSQLQuery.into(t).insert(1)", "r = q0.returning(t.a * u.b)"],
@@ -256,7 +263,9 @@ def scen_simple(rng):
               "plain_fn": ["q0 = PostgreSQLQuery.into(t).insert(1)", "r = q0.returning(fn.Upper(t.a))"]}[v]
         if v == "agg_plus_field":
             g = "pg_returning_mixed_aggregate"
-        exp = {"agg": "QueryException", "agg_arith": "QueryException", "agg_plus_field": "QueryException", "mixed_foreign": "QueryException",
+        exp = {"agg_neg": "QueryException", "agg_cmp": "QueryException", "agg_between": "QueryException", "agg_case": "QueryException",
+               "neg_plain": None, "cmp_plain": None,
+               "agg": "QueryException", "agg_arith": "QueryException", "agg_plus_field": "QueryException", "mixed_foreign": "QueryException",
                "mixed_foreign_fn": "QueryException", "foreign": "QueryException", "own": None, "star": None, "str": None,
                "select_query": "QueryException", "joined": None, "plain_fn": None}[v]
     elif g == "create_table":
